@@ -41,7 +41,7 @@ def canon_tokens(line, model):
             skipping = False
         if skipping:
             continue
-        if (t.endswith(':err') or t.endswith(':panic') or t.endswith(':err-vector-changed')) and t[0] in 'IBFSA':
+        if (t.endswith(':err') or t.endswith(':panic') or t.endswith(':err-vector-changed') or t.endswith(':stuck')) and t[0] in 'IBFSAZ':
             skipping = True
         if t.startswith('K:'):
             v = t[2:]
